@@ -26,7 +26,9 @@ pub enum Event {
     Lock { addr: usize, write: bool },
     Unlock { addr: usize, write: bool },
     Rmw { delta: i32, order: Ordering },
-    Alloc { ptr: usize, data_lock: usize, slot_locks: usize, n_slots: usize },
+    /// the content of a child slot is about to be accessed (a pointer to it was requested)
+    Access { addr: usize },
+    Alloc { ptr: usize, data_lock: usize, slot_locks: usize, slots: usize, n_slots: usize },
     Free { ptr: usize },
 }
 
@@ -126,6 +128,23 @@ impl<T> Drop for RwLockWriteGuard<'_, T> {
             addr:  self.addr,
             write: true,
         });
+    }
+}
+
+/// `UnsafeCell` that reports every request for a pointer to its content.
+#[derive(Debug, Default)]
+pub struct UnsafeCell<T>(std::cell::UnsafeCell<T>);
+
+impl<T> UnsafeCell<T> {
+    pub fn new(value: T) -> Self {
+        Self(std::cell::UnsafeCell::new(value))
+    }
+
+    pub fn get(&self) -> *mut T {
+        point(Event::Access {
+            addr: self as *const Self as usize,
+        });
+        self.0.get()
     }
 }
 
